@@ -28,7 +28,7 @@ def cb_trans(run, name, **kw):
     def fn(run2, args, kw2, lineno):
         ok = len(args) == 2 + len(TA) and not kw2 and all(a is b for a, b in zip(args[2:], TA)) and z3.is_expr(args[0]) and z3.is_expr(args[1])
         run2.oblige('site', 'callback-args:trans_time_fxn', lineno,
-                    And(args[0] == run2.cur_env['u'], args[1] == run2.cur_env['v']) if ok else BoolVal(False))
+                    And(args[0] == run2.local('u'), args[1] == run2.local('v')) if ok else BoolVal(False))
         return DEL()(args[0], args[1]) if ok else fresh('d', so.XR())
     return Callback('trans_time_fxn', fn)
 
@@ -36,7 +36,7 @@ def cb_trans(run, name, **kw):
 def cb_rec(run, name, **kw):
     def fn(run2, args, kw2, lineno):
         ok = len(args) == 1 + len(RA) and not kw2 and all(a is b for a, b in zip(args[1:], RA)) and z3.is_expr(args[0])
-        run2.oblige('site', 'callback-args:rec_time_fxn', lineno, (args[0] == run2.cur_env['u']) if ok else BoolVal(False))
+        run2.oblige('site', 'callback-args:rec_time_fxn', lineno, (args[0] == run2.local('u')) if ok else BoolVal(False))
         return DUR()(args[0]) if ok else fresh('d', so.XR())
     return Callback('rec_time_fxn', fn)
 
@@ -130,7 +130,7 @@ def contracts():
     def cb_transmission(run, name, **kw):
         def fn(run2, args, kw2, lineno):
             ok = len(args) == 2 and not kw2 and all(z3.is_expr(a) and a.sort() == so.St() for a in args)
-            env = run2.cur_env
+            env = run2.env_view()
             run2.oblige('site', 'callback-args:transmission', lineno,
                         And(args[0] == env['xi'].val[env['u']], args[1] == env['zeta'].val[env['v']]) if ok else BoolVal(False))
             return TRM()(args[0], args[1]) if ok else fresh('b', B)
